@@ -43,9 +43,11 @@ THEOREM_NOTES = {
     "C12_inverse_tail_partial": "not a theorem: inverse_tail_integral is a bracketing root search, covered by the implementation oracle only",
     "C12_density": "not a theorem: equality with the integral of the implied joint density is checked numerically (thorough tier)",
     "F-C12-1 / F-C12-2": "fixed in /repo (f5cd713, 5ccfc9d); the oracle keeps sweeping end points 0 and infinite-activity margins",
-    "F-C12-3": "known: with an infinite-activity margin a lower end point 0 is treated as closed (U_i(0) = +inf): the independent copula gives "
-               "(0,b] x S the axis mass; the oracle compares the independent copula with its TRUE mass (measure on the axes) on every in-scope "
-               "rectangle and matches_known absorbs exactly this pattern",
+    "F-C12-3 / F-C12-4": "known: on an infinite-activity margin U_i(0) = +inf makes the end point 0 flip per coordinate and side; the independent "
+                         "copula then returns the axis mass under the flipped convention (F-C12-3) or nan = inf - inf where the true mass is +inf "
+                         "(F-C12-4). The oracle judges the independent copula against its TRUE mass (+inf included) on every rectangle not "
+                         "containing the origin; matches_known recomputes truth and prediction from the replayed input",
+    "F-C12-5": "fixed in /repo (069cf33): integer end points; the oracle sweeps int / np.int64 end points on fresh and warm models",
 }
 LEVEL_TEXT = ("Proof: 11 Coq theorems about the py2coq-generated _mass_1d/_mass_2d/_mass_3d (one generated term, instantiated over extended "
               "reals for the proofs and over extended rationals to run). For every rectangle that does not contain the origin (each coordinate "
@@ -77,6 +79,7 @@ HEADER = ("From Coq Require Import List Arith Bool ZArith QArith Qabs.\n"
           "Definition UItab tab (i : idx) x : Q := match i with Some J => lookup tab J x | None => 1000000007 end.\n"
           "Definition U1tab tab (i : nat) (x : ext Q) : Q := lookup tab (cons i nil) (cons x nil).\n"
           "Definition close (x y tol : Q) : bool := Qle_bool (Qabs (x - y)) tol.\n"
+          "Definition pinf_V (M : list (list (Q * Q * Q))) (i : nat) (x : ext Q) : ext Q := match x with Fin v => if Qeq_bool v 0 then PInf else Fin (step_U1 M i x) | _ => Fin 0 end.\n"
           "Definition fastQ (d : nat) U1 UI a b i : Q := if Nat.eqb d 2 then fast_2d QNum U1 UI a b i else fast_3d QNum U1 UI a b i.\n")
 
 
@@ -221,6 +224,40 @@ def correspond(res):
                 groups.append((g + "_ui", "idx * list (ext Q) * Q",
                                f"fun c => match c with (i, x, v) => Qeq_bool (step_UI {ck} {M} i x) v end", ui_cases))
 
+    # ================= A2. exact, PInf-tailed margins: U_i(0) = +inf (infinite mass next to 0), dyadic elsewhere ===========
+    # in-scope rectangles only (some coordinate away from 0 => every tail integral that is read with a finite result is exact)
+    pinf_cases = []
+    for dim in (2, 3):
+        for k in range(2 if tier == "quick" else 6):
+            base = [CM.random_step_margin(rng) for _ in range(dim)]
+            margins = [["stepinf", m[1]] for m in base]
+            for cop in (["indep"], ["dep"]):
+                model = CM.make_model(margins, cop)
+                rects = CM.rectangles(rng, dim, pos, neg, n_random=80 if dim == 3 else 0)
+                rng.shuffle(rects)
+                n_here = 0
+                for (a, b, kinds) in rects:
+                    if n_here >= (60 if tier == "quick" else 200):
+                        break
+                    if all(x <= 0 <= y for x, y in zip(a, b)) or not any(x == 0 for x in a):
+                        continue          # keep rectangles with a lower end point 0 and a coordinate away from 0
+                    with np.errstate(all="ignore"):
+                        vf = call_mass(model, "fast", a, b, None); vn = call_mass(model, "nd", a, b, None)
+                    res.count(("pinf", dim, k, cop[0], a, b), kind=f"exact PInf-tailed d={dim} {cop[0]}")
+                    if not (math.isfinite(vf) and math.isfinite(vn)):
+                        res.bump("pinf_tailed_not_finite", 1)
+                        continue
+                    if vf != vn or vf < 0:
+                        viol("PInf-tailed exact model: fast path and _mass_nd differ / negative mass", kind="fast_vs_nd", fast=vf, nd=vn,
+                             margins=margins, copula=cop, a=list(a), b=list(b), indices=None)
+                    n_here += 1
+                    M = CM.margins_lit(base)
+                    ck = "Indep" if cop[0] == "indep" else "Dep"
+                    pinf_cases.append(f"({dim}%nat, {M}, {ck}, {elist(a)}, {elist(b)}, {qlit(vf)})")
+    groups.append(("pinf", "nat * list (list (Q * Q * Q)) * copula_kind * list (ext Q) * list (ext Q) * Q",
+                   "fun c => match c with (d, M, ck, a, b, v) => Qeq_bool (fastQ d (tail_val QNum (pinf_V M)) "
+                   "(margin_tail_integral QNum (pinf_V M) (copula_q ck) (length M)) a b None) v end", pinf_cases))
+
     # ================= B. tolerance: real margins x {Clayton, indep, dep}; tail integrals fed as data ========
     real_models = [
         (2, [["hem"], ["merton"]], ["clayton", 0.7, 0.3]),
@@ -354,6 +391,52 @@ def indep_truth_and_prediction(model, margins, idxs, a, b):
     return indep_axis_mass(model, idxs, a, b, true_c), indep_axis_mass(model, idxs, a, b, shifted)
 
 
+def _indep_ref(us):
+    """independent Levy copula on extended floats as the (repaired) code defines it: sum_k u_k * prod_{j != k} [u_j == +inf]"""
+    tot = 0.0
+    for k, u in enumerate(us):
+        if all(v == INF for j, v in enumerate(us) if j != k):
+            tot += u
+    return tot
+
+
+def mass_nd_reference(model, dim, idxs, a, b):
+    """float re-evaluation (with IEEE inf / nan) of the recorded formula: _mass_nd over the independent copula with the implementation's
+    own marginal tail integrals U_i (so U_i(0) = +inf on an infinite-activity margin).  Used ONLY to decide whether a nan is the recorded
+    inf - inf of F-C12-4; it mirrors Model/MassNd.v (mass_nd, volume, margin)."""
+    def U(i, x):
+        with np.errstate(all="ignore"):
+            return float(model.marginal_tail_integral(i, float(x)))
+
+    def UI(ind, xs):
+        if len(ind) == 1:
+            return U(ind[0], xs[0])
+        us = dict(zip(ind, [U(i, x) for i, x in zip(ind, xs)]))
+        rest = [i for i in range(dim) if i not in ind]
+        tot = 0.0
+        for p in itertools.product([-INF, INF], repeat=len(rest)):
+            full = [us[i] if i in us else p[rest.index(i)] for i in range(dim)]
+            sgn = math.prod(-1.0 if q < 0 else 1.0 for q in p)
+            with np.errstate(all="ignore"):
+                tot += _indep_ref(full) * sgn
+        return tot
+
+    def rec(ind, a, b):
+        for k, (x, y) in enumerate(zip(a, b)):
+            if x < 0 <= y:
+                a1 = list(a); b1 = list(b); a1[k], b1[k] = y, INF
+                a2 = list(a); b2 = list(b); a2[k], b2[k] = -INF, x
+                with np.errstate(all="ignore"):
+                    return rec(ind[:k] + ind[k + 1:], a[:k] + a[k + 1:], b[:k] + b[k + 1:]) - rec(ind, a1, b1) - rec(ind, a2, b2)
+        n, tot = len(a), 0.0
+        for p in itertools.product([0, 1], repeat=n):
+            xs = [a[i] if p[i] == 0 else b[i] for i in range(n)]
+            with np.errstate(all="ignore"):
+                tot += (-1 if (n - sum(p)) % 2 else 1) * UI(ind, xs)
+        return (-1 if n % 2 else 1) * tot
+    return rec(list(idxs), list(a), list(b))
+
+
 def _same(x, y, exact=False):
     if math.isinf(x) or math.isinf(y):
         return x == y
@@ -369,7 +452,7 @@ def _indep_truth(res, model, idxs, a, b, got, desc, infinite_activity, exact, vi
     if not math.isnan(got) and _same(got, truth, exact):
         return
     tagged = truth != pred and (((math.isnan(got) or got == INF) and pred == INF) or (math.isfinite(pred) and not math.isnan(got) and _same(got, pred, exact)))
-    nan_for_inf = math.isnan(got) and truth == INF and pred == INF
+    nan_for_inf = math.isnan(got) and truth == INF and math.isnan(mass_nd_reference(model, len(desc["margins"]), idxs, a, b))
     viol("independent copula: rectangle mass differs from the true mass (measure concentrated on the axes)"
          + (" -- end point 0 on an infinite-activity margin" if tagged else "") + (" -- nan where the mass is +inf" if nan_for_inf else ""),
          kind="indep_truth", finding="F-C12-3" if tagged else ("F-C12-4" if nan_for_inf else None), expected=truth, got=got,
@@ -395,7 +478,7 @@ def matches_known(v, known):
     if known.get("id") == "F-C12-4":
         # nan (inf - inf) where the true mass AND the flipped-convention mass are +inf: an axis segment next to 0 of an
         # infinite-activity margin lies in the rectangle
-        return math.isnan(got) and truth == INF and pred == INF
+        return math.isnan(got) and truth == INF and math.isnan(mass_nd_reference(model, len(r["margins"]), idxs, a, b))
     if truth == pred:
         return False
     if pred == INF:
@@ -493,6 +576,17 @@ def _margin_oracle(res, rng, model, desc0, dim, pos, neg, exact, viol):
 
 
 def _inverse_oracle(res, model, desc0, dim, viol):
+    # early returns: a level beyond the tail integral at the bracket end 1e-20 (finite-activity margin) returns that bracket end
+    for i in range(dim):
+        with np.errstate(all="ignore"):
+            top = float(model.marginal_tail_integral(i, 1e-20)); bot = float(model.marginal_tail_integral(i, -1e-20))
+        if math.isfinite(top) and math.isfinite(bot):
+            for y, want in ((2.0 * top + 1.0, 1e-20), (2.0 * bot - 1.0, -1e-20)):
+                got = float(model.inverse_tail_integral(i, y))
+                res.count(("inv-early", str(desc0), i, y), kind="inverse tail integral: early return")
+                if got != want:
+                    viol("inverse_tail_integral beyond the range of the tail integral does not return the bracket end", kind="inverse", coordinate=i,
+                         x=None, tail=y, inverse=got, tail_of_inverse=None, **desc0)
     for i in range(dim):
         for x in (-0.4, -0.1, -0.02, 0.015, 0.08, 0.3):
             with np.errstate(all="ignore"):
